@@ -208,6 +208,31 @@ func genC19(e *emitter, tier string, seed int64) {
 		}
 	}
 	recP(nil)
+	// (round 8) two functions declared from the same parameter objects in a different order (split(input,
+	// sep, limit) / rsplit(input, limit, sep)): each call binds by the list of the function it calls,
+	// whatever list was checked before
+	for mask := 0; mask < 8; mask++ {
+		base := []pspec{{"a", mask&1 != 0, false}, {"b", mask&2 != 0, false}, {"zz", mask&4 != 0, false}}
+		objs := mkParams(base)
+		for _, perm := range [][]int{{0, 1, 2}, {0, 2, 1}, {1, 0, 2}, {2, 1, 0}, {1, 2, 0}, {0, 2, 1}, {0, 1, 2}} {
+			ps := []pspec{base[perm[0]], base[perm[1]], base[perm[2]]}
+			params := []*runtimev2.Param{objs[perm[0]], objs[perm[1]], objs[perm[2]]}
+			pj := []any{}
+			for _, p := range ps {
+				pj = append(pj, []any{hx(p.Name), p.Def, p.Var})
+			}
+			results := []any{}
+			for _, c := range calls {
+				aj := []any{}
+				for i, a := range c {
+					aj = append(aj, []any{hx(a.Named), i + 1})
+				}
+				results = append(results, []any{aj, bindOnce(params, callSrc(c, false))})
+			}
+			e.stat("shared-param-objects")
+			e.emit(map[string]any{"k": "bind", "params": pj, "defok": runtimev2.CheckFnParamDef(params) == nil, "calls": results})
+		}
+	}
 	// a call of f among the variadic arguments of a call of f (after an earlier variadic call in the same
 	// run): every call keeps the arguments given to it, in order
 	for _, ps := range [][]pspec{{{"v", false, true}}, {{"a", false, false}, {"v", false, true}}, {{"a", false, false}, {"b", true, false}, {"v", false, true}}} {
